@@ -261,6 +261,10 @@ def _match_wildcard(node: ast.AST, template: Wildcard, ignore: Collection[str]) 
     if template.name == "Ellipsis_anything" and template.template is object:
         return (node,)
 
+    if node is None:
+        # A child that is absent, like the value of a bare return. There is nothing to bind.
+        return ()
+
     namedtuple_type = _make_match_type((template.name,))
     template_match = match_template(node, template.template, ignore=ignore)
     return namedtuple_type(template_match[0]) if len(template_match) == 1 else ()
